@@ -84,5 +84,109 @@ PROPS["C04"] = {
     "assumptions": COMMON_ASSUME + ["under the k/2 comparator only comparator-equivalence of reported keys is required, not which representative is stored"],
 }
 
+HEAP_TRIAGE = ("Known findings F1 (sift-up through slot i/2) and F2 (no sift-up after interior removal) are handled as in "
+               "DESIGN.md 2.1: every case computes exposure predicates (F1: an Add that is neither a new maximum nor lands "
+               "in slot 2^k-1; F2: Remove(i) with 3<=i<last on >=6 elements); an unexposed case is checked strictly; in an "
+               "exposed case a failure of the minimality clause is attributed to the finding only if an executable "
+               "deviation model of the documented heap algorithm ({F1},{F2},{F1,F2}), run in lockstep, reproduces the "
+               "queue's array order after every operation; every other clause is strict always.")
+
+PROPS["C05"] = {
+    "legs": [rapid("hist", "pheap", "TestC05Hist", 4, 4000, 16, 40000),
+             rapid("sort", "pheap", "TestC05Sort", 1, 3000, 4, 30000),
+             plain("sortx", "pheap", "TestC05SortExhaustive", solo=True)],
+    "rule": "leg hist: constructor New or NewWithData (arbitrary data, spare capacity), both comparison directions, "
+            "<=60(+20) ops among Add, Pop, Front, Peek(i) incl. out of range and negative (must panic), Remove(i) "
+            "anywhere, Set, Reorder (direction change in mid-life), Clear, Each (with early stop), Update on/off, "
+            "partial drains, final drain to empty; elements are (value, unique id) ordered by value only, values mostly "
+            "in 0..3 (many duplicates). Generator modes: A (no Add, removal only at offset 0/last), B (Adds that cannot "
+            "swap through an even slot, safe removals), G (everything). After every op: Len/IsEmpty, Each and "
+            "Peek(0..Len-1) each enumerate exactly the held identities, Remove(i) returns what Peek(i) showed, Pop/Front "
+            "return a held element that is minimal under the current comparison, drains are non-decreasing. " + HEAP_TRIAGE +
+            " NON-TRIVIAL iff >=3 heap levels were populated and an interior Remove / Set / mid-life Reorder was followed "
+            "by >=3 Pops. Legs sort/sortx: heapq.Sort on random slices and on every sequence over {0,1,2} up to length "
+            "8 (quick) / 11 (thorough), both directions: output sorted and a permutation by identity; non-trivial = "
+            "length>=4 with duplicates. Distinct = hash of the case JSON (rapid legs) / distinct by construction (sortx).",
+    "assumptions": COMMON_ASSUME + ["a defect whose symptoms coincide with a deviation model of F1/F2 on every generated history would be filed under the known finding"],
+}
+
+PROPS["C06"] = {
+    "legs": [rapid("pos", "pheap", "TestC06Pos", 4, 4000, 16, 40000)],
+    "rule": "histories as C05 (mode G) with an update callback installed that records the last reported position per "
+            "element id; extra ops: removeElem (Remove at the recorded position of a chosen tracked element must return "
+            "exactly that element), Update(nil)/re-install phases (after removal of the callback no call may arrive; "
+            "tracking restarts from the next report). After every op, for each held element that has been reported: "
+            "Peek(lastReported) is that element; Add returns the reported position of the new element; Set reports every "
+            "new element. Elements loaded by NewWithData are exempt until first reported. NON-TRIVIAL iff an element "
+            "that had moved >=2 times was removed through its recorded position. Order failures met on the way are "
+            "routed through the C05 triage. Distinct = hash of the case JSON.",
+    "assumptions": COMMON_ASSUME,
+}
+
+PROPS["C07"] = {
+    "legs": [rapid("hist", "pqueue", "TestC07Hist", 4, 4000, 16, 50000),
+             plain("exh", "pqueue", "TestC07Exh", solo=True)],
+    "rule": "leg hist: rapid draws a history as data: constructor in {zero value, New(), NewSize(n), n in 0..17}; <=76 random "
+            "ops among Add, Push, Pop, PopLast, Clear, Front, Peek(i in [-Len-2, Len+2]), Each(stop after j), Slice, Len and "
+            "runs addRun/pushRun/popRun/popLastRun of 1..20 steps; three cases in four additionally start with a constructed "
+            "prefix that fills the buffer exactly while the head is in the middle (from the back by Add after Pop, from the "
+            "front by Push after PopLast, or Push into an empty NewSize buffer) followed by the Add/Push that must rotate and "
+            "regrow. Values are 1,2,3,... so loss, duplication and reordering are visible. After EVERY single step (each "
+            "element of a run) the interpreter compares Len, IsEmpty, Front, Slice (nil when empty), the full Each sequence and "
+            "Peek(i) for every i in [-Len-2, Len+2] with a reference slice (Add appends, Push prepends, Pop/PopLast remove at "
+            "the ends and must return (0,false) on empty); Each must stop after exactly j callbacks. A case is NON-TRIVIAL iff "
+            "it reached 'buffer full with head > 0, then Add or Push'. The ring state is not observable, so this is decided by "
+            "a shadow (cap, head, n) that follows the algorithm documented in queue.go and grows a real []int with the same "
+            "append calls; the shadow only labels cases (classes '...(shadow)') and is never compared with the queue. "
+            "Distinct = distinct canonical JSON of the case (64-bit hash), unioned over shards. "
+            "leg exh: every sequence over {Add, Push, Pop, PopLast} of length 0..L (L = 9 quick, 11 thorough), in size order, "
+            "for each NewSize(n), n in 0..4, same comparison after every step; distinct by construction; non-trivial by the "
+            "same shadow rule.",
+    "assumptions": COMMON_ASSUME + [
+        "element type is int; capacity growth of the shadow follows the runtime's append for the same element type (labels only)",
+        "statement coverage of queue.go / slice.Rotate is not recorded by the driver; the shadow classes "
+        "full_head>0_then_Add / full_head>0_then_Push stand in for it"],
+}
+
+PROPS["C10"] = {
+    "legs": [rapid("stack", "pseq", "TestC10Stack", 4, 2000, 16, 20000),
+             rapid("mqueue", "pseq", "TestC10MQueue", 4, 2000, 16, 20000),
+             rapid("list", "pseq", "TestC10List", 4, 2000, 16, 20000),
+             rapid("ring", "pseq", "TestC10Ring", 4, 2000, 16, 20000)],
+    "rule": "Four rapid legs, each drawing a history as data and comparing with a reference after EVERY step. "
+            "stack / mqueue: zero value or constructor; Push/Add/Pop/Top/Front/Peek(n in and out of range; n<0 must panic)/"
+            "Each(stop after j)/Len/IsEmpty/Clear/Slice and runs, against a reference slice (Each/Slice of the stack newest "
+            "first; Slice nil when empty). Non-trivial: stack = a Push/Add after a Pop that left the stack non-empty AND an "
+            "out-of-range or negative Peek; mqueue = Add after the queue was emptied by Pop or after Clear of a non-empty "
+            "queue (the queue caches a cursor at its tail). "
+            "list: zero value or NewList, 0..9 initial elements, up to 5 live cursors obtained by At(n)/Find/Last/End; cursor "
+            "ops Get, Set, Push, Add(0..3 values), Remove, Truncate, Next, AtEnd; list ops Clear, Peek, Each(stop), Len, "
+            "At/Peek with n<0 (must panic); 0..2 spliced scenarios make a cursor stale (another cursor's Remove just before it, "
+            "a Truncate upstream, Clear) and then use it. Model = sequence of entry ids with unique values + per cursor the id "
+            "of its predecessor entry; the documented before/after pictures are the transition rules; a cursor denotes what "
+            "follows its predecessor, so a cursor AT a removed element stays valid and sees the next one, and cursors not "
+            "documented as invalidated must keep working. A cursor whose predecessor entry left the list is stale: every "
+            "method (AtEnd, Get, Set, Push, Add(>=1 value), Remove, Truncate, Next) must panic with a value containing "
+            "'invalid cursor', must return (the kit's CPU watchdog turns a hang into a violation) and must leave the list "
+            "unchanged; AtEnd and Get of EVERY stale cursor are re-probed after every step. A cursor at position 0 when Clear "
+            "is called (the documentation says invalidated, the property does not require refusal) may either refuse or keep "
+            "working - decided once by a probe. After every step: IsEmpty, Len, full Each, Peek at 0/Len-1/Len/Len+1, and for "
+            "every valid cursor AtEnd, Get and the rest of the list as seen by walking a copy of the cursor with Next. "
+            "Non-trivial: a stale cursor was used by an operation of the history after a structural edit elsewhere. "
+            "ring: pool of <=24 elements (Value = id) created by New(n in -1..5)/Of(0..5 values); Join(r,s) for arbitrary "
+            "pairs, same-ring pairs at a drawn distance (identical, adjacent, >=2, s = predecessor of r) and different-ring "
+            "pairs (incl. single-element rings), Pop, Each(stop), nil-receiver Len/IsEmpty/Each/At/Peek/Pop. Model = set of "
+            "cycles of ids; Join's two documented cases give the resulting cycles and the returned element (r == s: unchanged, "
+            "nil). After every step, from EVERY element: Next/Prev equal the model's neighbours and are mutually inverse, "
+            "Each and Len equal the model's rotation, At(n)/Peek(n) for n in [-Len-1, Len+1] (nil or the element itself "
+            "accepted at |n| == Len), so the multiset of elements is conserved. Non-trivial: a same-ring Join at distance >= 2 "
+            "and a different-ring Join in one history. Distinct = distinct canonical JSON of the case (64-bit hash), unioned "
+            "over shards.",
+    "assumptions": COMMON_ASSUME + [
+        "a hang is recognised by the kit's watchdog (case still running after 30 s wall and 20 s CPU; the operations are O(n <= 64))",
+        "mlink cursors are value-copyable (the position check walks a copy of the cursor)",
+        "Cursor.Add with zero values and ring.Join with a nil argument are outside the documented domain and not exercised on stale cursors / at all"],
+}
+
 # Properties deliberately not claimed (reason shown in MANIFEST.not_applicable).
 NOT_APPLICABLE = {}
